@@ -400,9 +400,18 @@ func cmdCheck(args []string) int {
 			}
 		}
 		ran := map[string]bool{}
+		var tmplList []string
 		for _, r := range results {
-			tmpl := filepath.Join(vd, "replay", "templates", mangle(strings.ReplaceAll(r.Key, "berty.tech/go-orbit-db/", ""))+".go.tmpl")
-			if _, err := os.Stat(tmpl); err != nil || ran[tmpl] {
+			base := filepath.Join(vd, "replay", "templates", mangle(strings.ReplaceAll(r.Key, "berty.tech/go-orbit-db/", "")))
+			if _, err := os.Stat(base + ".go.tmpl"); err == nil {
+				tmplList = append(tmplList, base+".go.tmpl")
+			}
+			// scenario variants of the same unit: <unit>__<scenario>.go.tmpl
+			vs, _ := filepath.Glob(base + "__*.go.tmpl")
+			tmplList = append(tmplList, vs...)
+		}
+		for _, tmpl := range tmplList {
+			if ran[tmpl] {
 				continue
 			}
 			ran[tmpl] = true
